@@ -123,16 +123,18 @@ static void ec_alg_type(EVP_PKEY *pkey, char crv[32], char alg[32])
 /* Retrieves and b64url-encodes a single OSSL BIGNUM param and adds it to
  * the JSON object as a string. */
 static void get_one_bn(EVP_PKEY *pkey, const char *ossl_param,
-		       json_t *jwk, const char *name)
+		       json_t *jwk, const char *name, int min_len)
 {
 	/* Get param */
 	BIGNUM *bn = NULL;
 	EVP_PKEY_get_bn_param(pkey, ossl_param, &bn);
 
-	/* Extract data */
+	/* Extract data, left padded with zeros up to min_len octets */
 	int len = BN_num_bytes(bn);
+	if (len < min_len)
+		len = min_len;
 	unsigned char *bin = OPENSSL_malloc(len);
-	BN_bn2bin(bn, bin);
+	BN_bn2binpad(bn, bin, len);
 	BN_free(bn);
 
 	/* Encode */
@@ -161,16 +163,23 @@ static void get_one_octet(EVP_PKEY *pkey, const char *ossl_param,
 static void process_ec_key(EVP_PKEY *pkey, int priv, json_t *jwk)
 {
 	char alg_type[32], crv[32];
+	size_t bits = 0;
+	int len;
 
 	ec_alg_type(pkey, crv, alg_type);
 
 	json_object_set_new(jwk, "alg", json_string(alg_type));
 	json_object_set_new(jwk, "crv", json_string(crv));
 
-	get_one_bn(pkey, OSSL_PKEY_PARAM_EC_PUB_X, jwk, "x");
-	get_one_bn(pkey, OSSL_PKEY_PARAM_EC_PUB_Y, jwk, "y");
+	/* RFC 7518 6.2.1.2: x, y and d are the full size of a coordinate for
+	 * the curve, with leading zero octets if needed. */
+	EVP_PKEY_get_size_t_param(pkey, OSSL_PKEY_PARAM_BITS, &bits);
+	len = (bits + 7) / 8;
+
+	get_one_bn(pkey, OSSL_PKEY_PARAM_EC_PUB_X, jwk, "x", len);
+	get_one_bn(pkey, OSSL_PKEY_PARAM_EC_PUB_Y, jwk, "y", len);
 	if (priv)
-		get_one_bn(pkey, OSSL_PKEY_PARAM_PRIV_KEY, jwk, "d");
+		get_one_bn(pkey, OSSL_PKEY_PARAM_PRIV_KEY, jwk, "d", len);
 }
 
 /* For EdDSA keys */
@@ -186,18 +195,18 @@ static void process_eddsa_key(EVP_PKEY *pkey, int priv, json_t *jwk)
  * (PS256, PS384, PS512) */
 static void process_rsa_key(EVP_PKEY *pkey, int priv, json_t *jwk)
 {
-	get_one_bn(pkey, OSSL_PKEY_PARAM_RSA_N, jwk, "n");
-	get_one_bn(pkey, OSSL_PKEY_PARAM_RSA_E, jwk, "e");
+	get_one_bn(pkey, OSSL_PKEY_PARAM_RSA_N, jwk, "n", 0);
+	get_one_bn(pkey, OSSL_PKEY_PARAM_RSA_E, jwk, "e", 0);
 
 	if (!priv)
 		return;
 
-	get_one_bn(pkey, OSSL_PKEY_PARAM_RSA_D, jwk, "d");
-	get_one_bn(pkey, OSSL_PKEY_PARAM_RSA_FACTOR1, jwk, "p");
-	get_one_bn(pkey, OSSL_PKEY_PARAM_RSA_FACTOR2, jwk, "q");
-	get_one_bn(pkey, OSSL_PKEY_PARAM_RSA_EXPONENT1, jwk, "dp");
-	get_one_bn(pkey, OSSL_PKEY_PARAM_RSA_EXPONENT2, jwk, "dq");
-	get_one_bn(pkey, OSSL_PKEY_PARAM_RSA_COEFFICIENT1, jwk, "qi");
+	get_one_bn(pkey, OSSL_PKEY_PARAM_RSA_D, jwk, "d", 0);
+	get_one_bn(pkey, OSSL_PKEY_PARAM_RSA_FACTOR1, jwk, "p", 0);
+	get_one_bn(pkey, OSSL_PKEY_PARAM_RSA_FACTOR2, jwk, "q", 0);
+	get_one_bn(pkey, OSSL_PKEY_PARAM_RSA_EXPONENT1, jwk, "dp", 0);
+	get_one_bn(pkey, OSSL_PKEY_PARAM_RSA_EXPONENT2, jwk, "dq", 0);
+	get_one_bn(pkey, OSSL_PKEY_PARAM_RSA_COEFFICIENT1, jwk, "qi", 0);
 }
 
 static void process_hmac_key(json_t *jwk, const unsigned char *key, size_t len)
